@@ -550,6 +550,24 @@ def oracle_C04(rs, n, ctx):
             continue
         R.case((nd, cells, d, kind, scls, "lb"), None)
         lower_bound_clause(R, g, v, d, o, src, nd, rep)
+    # homogeneous 3D, moderately unequal spacings, 14 cells per axis: a wrong pairing of the spacing factors inside the 3D
+    # operator is bit-identical for equal spacings and stays within one cell on small grids, but grows with distance
+    rs3 = np.random.RandomState(rs.randint(0, 2 ** 31 - 1))
+    for it in range(3):
+        d3 = [(1.0, 2.0, 1.0), (2.0, 1.0, 1.5), (1.0, 1.0, 2.0), (0.5, 1.0, 0.75), (1.5, 1.0, 1.0), (1.0, 1.5, 2.0)][int(rs3.randint(6))]
+        cells = (14, 14, 14)
+        v = np.full(cells, float(rs3.uniform(0.5, 4.0)))
+        o = [0.0, 0.0, 0.0]
+        corner = [float(rs3.choice([0.0, cells[a] * d3[a]])) for a in range(3)]
+        src = np.array(corner if rs3.rand() < 0.7 else [cells[a] * d3[a] * rs3.rand() for a in range(3)])
+        rep = model_replay(v, d3, o, src, kind="homog", cls="corner/interior", clause="lower-bound-3d-unequal")
+        try:
+            g = eik(3)(v, d3, o).solve(src, nsweep=2).grid
+        except Exception as ex:  # noqa: BLE001
+            R.violate("C04:raises", f"{type(ex).__name__}: {ex}", rep)
+            continue
+        R.case((3, cells, d3, "homog", "lb3"), None)
+        lower_bound_clause(R, g, v, d3, o, src, 3, rep)
     contrast3d_stage(R, np.random.RandomState(rs.randint(0, 2 ** 31 - 1)), max(20, 2 * n), "C04")
     return R
 
